@@ -340,7 +340,12 @@ OutConnect(h, d) ==
       c == h.cfg
       h1 == Check(h, h.cleanDc \/ d.clean = (IF h.everOk THEN 0 ELSE 1), "C05",
                   "clean start must be requested exactly until the first successful CONNACK")
-      h2 == Check(h1, d.cid = h.cid, "C05", "CONNECT does not carry the configured / assigned client id")
+      h2a == Check(h1, d.cid = h.cid, "C05", "CONNECT does not carry the configured / assigned client id")
+      \* C16: a broker keys sessions by client identifier; under another identifier the session that the
+      \* accepted, still unacknowledged operations belong to cannot be resumed, so they can never complete
+      h2 == IF d.cid # h.cid /\ h.everOk /\ \E k \in 1..Len(h.reqs) : InFlight(h, k)
+            THEN Viol(h2a, "C16", "CONNECT under another client identifier while accepted operations are pending (their session cannot be resumed)")
+            ELSE h2a
       h3 == Check(h2, HasProp(d.props, 39) /\ FirstProp(d.props, 39).s = EncU32(c.rx), "C14",
                   "CONNECT must advertise the receive buffer size as Maximum Packet Size")
       h4 == Check(h3, PropSet(d.props) = want /\ Len(d.props) = 3, "C09", "CONNECT properties differ from the configuration")
@@ -1122,6 +1127,13 @@ StepTwin(h, e) ==
                                   n |-> [q \in AllProps |-> IF q = p \/ (e.kind = "fragcancel" /\ q = "C13") THEN 1 ELSE 0]]))
      THEN h4 ELSE h4
 
+\* C12: connect() "starts with a complete CONNECT on the new transport": it turns to the CONNACK only once the
+\* transport has taken the whole CONNECT (a transport may take any part of what a write offers)
+ConnReads(h) ==
+  IF h.op.name = "conn" /\ h.wtail # << >> /\ h.taint = 0
+  THEN Viol(h, "C12", "connect() waits for the CONNACK while its CONNECT is only partly written")
+  ELSE h
+
 Step(h0, e) ==
   LET h == [h0 EXCEPT !.v = << >>, !.kf = << >>] IN
   \* after known finding D2 has garbled a transport's byte stream nothing observed later in this
@@ -1134,8 +1146,8 @@ Step(h0, e) ==
     [] e.e = "wpend" -> [IoOnDead(h) EXCEPT !.pio = "w"]
     [] e.e = "werr" -> [IoOnDead(h) EXCEPT !.op.fault = TRUE]
     [] e.e = "f" -> StepF(h, e)
-    [] e.e = "r" -> StepR(h, e)
-    [] e.e = "rpend" -> [IoOnDead(h) EXCEPT !.pio = "r"]
+    [] e.e = "r" -> StepR(ConnReads(h), e)
+    [] e.e = "rpend" -> [IoOnDead(ConnReads(h)) EXCEPT !.pio = "r"]
     [] e.e = "reof" -> [IoOnDead(h) EXCEPT !.op.eof = TRUE]
     [] e.e = "rerr" -> [IoOnDead(h) EXCEPT !.op.fault = TRUE]
     [] e.e = "yield" -> C10Yield(h, e.wake)
